@@ -183,7 +183,7 @@ PROPS = {
         thorough=dict(checks=1500, shards=8, timeout=3000),
     ),
     "C10": dict(
-        run="^TestC10$",
+        run="^(TestC10|TestC10Stress)$",
         level="exploration",
         rule=("(1) notifier layer: generated sets of waiters on 1-4 subscriptions and one notification naming 1-5 subscription ids in any order (ids without waiters, repeats): exactly the waiters of the "
               "named subscriptions are woken; (2) schedules: 1-2 waiting pulls (the real action with a 40 s timeout, or a StreamingPull-style streamer) on 1-3 subscriptions and one writer drawn from "
@@ -191,7 +191,7 @@ PROPS = {
               "dead-letters an ordered predecessor, dead-letter forward into the waiter's topic by nack and by the sweep, seek backwards}; a wrapping database driver parks each waiter at a "
               "generated transaction boundary - before its first transaction, between its transactions, before its query, after the commit of its empty query but before it waits, or already "
               "waiting - while the writer runs to completion; oracle: every waiter returns the message within 2 s of the writer's commit (a miss must reproduce 3 times out of 3 from the same "
-              "schedule); non-trivial = the writer commits inside the check-to-wait window, or one request touches >=2 subscriptions; distinct by hash of the schedule"),
+              "schedule); stress pairs (TestC10Stress: 150, thorough 600): a blocking Pull and a Publish issued 0-3 ms apart in either order with no schedule control - the pull must come back with the message; still waiting 3.5 s after the publish returned while the message sits unattempted in the subscription = lost wake-up (low power for microsecond windows, which the scheduler placements cover; it is there for start-up and registration races); non-trivial = the writer commits inside the check-to-wait window, or one request touches >=2 subscriptions; distinct by hash of the schedule"),
         assumptions=["bounded-response check of a liveness-flavoured statement (2 s bound, waiter timeout 40 s, every retry timer 10 min away)", "real clock; SQLite: transactions are serial, so transaction-boundary placements are the interleavings",
                      "the external-notifier (PostgreSQL LISTEN/NOTIFY) path is not run"],
         quick=dict(checks=150, timeout=900, shrinktime="10s"),
